@@ -321,7 +321,7 @@ class Evaluator:
                 return self._dynrefval(r, definer, inst, name)
         if name in self.m.refs:
             r = self.m.refs[name]
-            return ("val", self._plain(r.value), ("ref", "", name))
+            return self._objkind(r.value, ("ref", "", name))
         ch = self.child(inst, name)
         if ch is not None:
             return ("space", ch)
@@ -732,7 +732,7 @@ class Evaluator:
                 return ("space", self.sinst(recv.spaces[name]))
             if name in recv.refs:
                 self._note_attrread(("", name))
-                return ("val", recv.refs[name].value, ("ref", "", name))
+                return self._objkind(recv.refs[name].value, ("ref", "", name))
             raise EvalRaise("AttributeError", name)
         try:
             r = self.lookup(recv, name)
